@@ -33,6 +33,8 @@ def run(ck):
     ck.assumptions += ["slice::binary_search/insert semantics", "Dynamics::matcher deliberately folds over all caring directives (not covered)"]
     ck.rule("C11.R7", "directive levels are compared by a correct total order (as C19.R1/R2/R4)", floor=60)
     ck.rule("C11.R8", "EnvFilter and Targets implement the same hooks as a layer and as a per-subscriber filter (as C09.R9)", floor=9)
+    ck.rule("C11.R13", "a `{a,b}` field list is cut into fields by the field regex's capture group, without the separating comma", floor=1)
+    ck.rule("C11.R12", "a value matcher prints in a form its own parser reads back as the same kind (float matchers keep their decimal point)", floor=1)
     ck.rule("C11.R11", "the builder's default directive is added only to a filter that parsed no directive of either kind", floor=1)
     ck.rule("C11.R10", "span-scoped directives can raise the level for a callsite the static directives turn off: EnvFilter never caches `never` while it has span directives (as C08.R11)", floor=3)
     ck.rule("C11.R9", "EnvFilter Builder steps keep every other option (same-named field carry-over, as C13.R6)", floor=3)
@@ -60,6 +62,8 @@ def run(ck):
     builder_carry_over(ck, F, "C11.R9", ("tracing_subscriber::filter::env::builder::",))
     C08.envfilter_interest(ck, F, rid="C11.R10")
     r11(ck, F)
+    r12(ck, F)
+    r13(ck, F)
 
 
 def r1(ck, F):
@@ -466,3 +470,45 @@ def r11(ck, F):
         ck.bad("C11.R11", key, where(b.raw["sp"]), "; ".join(problems) + ": a filter made of span directives alone silently gains the default directive", fn=b.path)
     else:
         ck.ok("C11.R11", key, fn=b.path, detail=sorted(set(sites)))
+
+
+def r12(ck, F):
+    """ValueMatch::parse tries bool, then u64, then i64, then f64: a float matcher whose value is integral must not be
+    printed as `1` (it would come back as U64(1), which does not match the float 1.0 a span records). The F64 arm of Display
+    has to go through a float formatter that keeps the decimal point or exponent (Debug / LowerExp), every other arm prints
+    its own payload."""
+    VM = E + "field::ValueMatch"
+    b = F.body("<%s as core::fmt::Display>::fmt" % VM)
+    adt = F.adts.get(VM)
+    if not (ck.anchor("C11.R12", "Display for ValueMatch", b) and ck.anchor("C11.R12", "ValueMatch", adt)):
+        return
+    names = [v["name"] for v in adt["variants"]]
+    rows = {}
+    for p in PathEval(b).run():
+        if p.end == "return" and p.conds and show(p.conds[0][0]) == "discr(arg1)" and isinstance(p.conds[0][1], int) and p.ret[0] == "call":
+            rows[names[p.conds[0][1]]] = (p.ret[1], show(p.ret[2][0]))
+    key = "ValueMatch::F64 is printed with a float formatter that keeps the decimal point"
+    f = rows.get("F64")
+    if f and f[0] in ("core::fmt::Debug::fmt", "core::fmt::LowerExp::fmt", "core::fmt::UpperExp::fmt") and "as F64" in f[1]:
+        ck.ok("C11.R12", key, fn=b.path, detail={k: v[0].rsplit("::", 2)[-2] for k, v in rows.items()})
+    else:
+        ck.bad("C11.R12", key, where(b.raw["sp"]), "the F64 arm prints through %s: `x=1.0` is shown as `x=1`, which parses back as an integer matcher and no longer "
+               "matches the float the span records (Display/parse round trip changes the filter)" % (f,), fn=b.path)
+
+
+def r13(ck, F):
+    """`[span{a=1,b=2}]`: FIELD_FILTER_RE matches `a=1,` -- field plus separator -- and captures the field alone in group 1.
+    Directive::parse must hand field::Match::parse the capture, not the whole match (`Regex::find_iter`): with the comma in
+    it the field name / value pattern is wrong, the directive matches no span, and Display shows `{a=1,,b=2}`."""
+    top = F.body(E + "directive::Directive::parse")
+    if not ck.anchor("C11.R13", "Directive::parse", top):
+        return
+    bodies = [top] + F.closures_of(top)
+    parses = [(x, bb, t) for x in bodies for bb, t in x.calls() if (t["callee"].get("path") or "").endswith("field::Match::parse")]
+    finds = [where(t["sp"]) for x in bodies for bb, t in x.calls() if (t["callee"].get("path") or "").endswith("Regex::find_iter")]
+    caps = [1 for x in bodies for bb, t in x.calls() if (t["callee"].get("path") or "").endswith("Regex::captures_iter")]
+    key = "Directive::parse cuts the fields of a list out with the field regex's capture group"
+    if parses and caps and not finds:
+        ck.ok("C11.R13", key, fn=top.path)
+    else:
+        ck.bad("C11.R13", key, where(top.raw["sp"]), "field::Match::parse is fed from Regex::find_iter (%s): the whole match includes the `,` separator" % (finds or "no captures_iter found"), fn=top.path)
